@@ -3,6 +3,7 @@ module verifharness
 go 1.24.4
 
 require (
+	github.com/0xPolygon/cdk-contracts-tooling v0.0.4
 	github.com/agglayer/aggkit v0.0.0
 	github.com/ethereum/go-ethereum v1.15.5
 	github.com/mattn/go-sqlite3 v1.14.28
@@ -20,7 +21,6 @@ require (
 	cloud.google.com/go/iam v1.2.2 // indirect
 	cloud.google.com/go/kms v1.20.1 // indirect
 	cloud.google.com/go/longrunning v0.6.2 // indirect
-	github.com/0xPolygon/cdk-contracts-tooling v0.0.4 // indirect
 	github.com/0xPolygon/cdk-rpc v0.0.0-20250213125803-179882ad6229 // indirect
 	github.com/0xPolygon/zkevm-ethtx-manager v0.2.15 // indirect
 	github.com/agglayer/go_signer v0.0.7 // indirect
